@@ -211,8 +211,70 @@ def undeclared_key_reading_rule(cx, rep, rid):
                 rep.ob(rid, "%s/undeclared-key-reads-optional" % g.rsplit("::", 1)[-1], ok,
                        "%s reads the value type of an index signature as the type of ONE key the signature admits without `make_optional` (and without a guard that the signature's key set is finite): an index signature never forces the key to exist - `{a?: string} & {[k: string]: string}` becomes `{a: string, ..}`, the exact values `{}` and `{b: \"x\"}` are lost and `X extends {a: string}` is answered yes"
                        % g, "%s:%s" % (f.file, r["line"]), sample={"fn": g, "line": r["line"], "through": why})
-    rep.floor(rid, "reads of an index signature's value type under a single-key admission test", n, 4)
+    rep.floor(rid, "reads of an index signature's value type under a single-key admission test (two kinds: finite key set, optional)", n, 2)
 
+
+
+# ---------------------------------------------------------------------------------------------------------------------
+def declaration_scope_rule(cx, rep, rid):
+    """C08.17.  The type parameters of a declaration are in scope in EVERY type-bearing part of it - the body, and for
+    an interface also its heritage clause (`interface Child<T> extends Base<T>`).  Decided: in a function that pushes
+    the type parameters of a declaration D (names read from `D.type_params`) on the scope stack and pops them again,
+    no part of D other than its span is converted after the last pop.  (Found: the interface converter popped before
+    it read `extends`, so `interface Child<T> extends Base<T>` failed with `cannot resolve T` while the equivalent
+    alias `type Child<T> = Base<T> & {..}` compiled - replacing an interface by the equivalent object type changed
+    the result.)"""
+    F = cx.rs
+    trees = _core_trees(F)
+    n = 0
+    for g in sorted(trees):
+        t = trees[g]
+        f = F.fns[g]
+        if "/src/frontend/" not in (f.file or ""):
+            continue
+        C = Closure(t)
+
+        def is_stack(recv):
+            return recv["k"] == "Field" and "Vec<(std::string::String" in (recv.get("ty") or "").replace("alloc::", "std::") or (recv["k"] == "Field" and recv["name"].endswith("_stack"))
+        pushes = [x for x in walk(t["body"]) if x["k"] == "MethodCall" and x.get("method") == "push" and is_stack(x["recv"])]
+        pops = [x for x in walk(t["body"]) if x["k"] == "MethodCall" and x.get("method") == "pop" and is_stack(x["recv"])]
+        if not pushes or not pops:
+            continue
+        decls = {}
+        for pu in pushes:
+            for a in pu.get("args") or []:
+                for x in C.nodes(a):
+                    if x["k"] == "Field" and x["name"] == "type_params":
+                        base = x["e"]
+                        while base["k"] in ("Field", "Unary", "AddrOf", "MethodCall"):
+                            base = base["recv"] if base["k"] == "MethodCall" else base["e"]
+                        if base["k"] == "Path" and base.get("res") == "local":
+                            decls[base.get("lid")] = base.get("name")
+        if not decls:
+            continue
+        seq = hirpath.eval_sequence(t["body"])
+        pos = {id(x): i for i, x in enumerate(seq)}
+        last_pop = max(pos.get(id(x), -1) for x in pops)
+        for lid, dname in sorted(decls.items(), key=lambda kv: str(kv[1])):
+            n += 1
+            late = []
+            for x in seq[last_pop + 1:]:
+                if x["k"] not in ("Call", "MethodCall") or _callee_gid(F, x) not in trees:
+                    continue          # only conversions by the crate's own functions (`.is_empty()` on the list is no conversion)
+                args = ([x["recv"]] if x["k"] == "MethodCall" else []) + list(x.get("args") or [])
+                for a in args:
+                    for y in walk(a):
+                        if y["k"] == "Field" and y["name"] not in ("span",) and "Span" not in (y.get("ty") or "Span" if y["name"] == "span" else (y.get("ty") or "")):
+                            base = y["e"]
+                            while base["k"] in ("Field", "Unary", "AddrOf"):
+                                base = base["e"]
+                            if base["k"] == "Path" and base.get("lid") == lid:
+                                late.append((y["name"], x.get("method") or (x.get("callee") or "?").rsplit("::", 1)[-1], x["line"]))
+            rep.ob(rid, "%s/%s/scope-covers-declaration" % (g.rsplit("::", 1)[-1], dname), not late,
+                   "%s converts %s of the declaration `%s` AFTER its type parameters were popped from the scope stack: the parameters are in scope there too (`interface Child<T> extends Base<T>` fails with `cannot resolve T`, or T is bound to an unrelated outer type of that name, while `type Child<T> = Base<T> & {..}` compiles) - replacing an interface by the equivalent object type changes the result"
+                   % (g, ", ".join(sorted({"`.%s` (in %s, line %s)" % l_ for l_ in late})), dname), "%s:%s" % (f.file, late[0][2] if late else f.line),
+                   sample={"fn": g, "declaration": dname, "pushes": len(pushes), "pops": len(pops)})
+    rep.floor(rid, "declarations whose type parameters are pushed and popped around their conversion", n, 2)
 
 
 # =====================================================================================================================
@@ -514,7 +576,8 @@ def verbatim_name_rule(cx, rep, rid):
 REGISTRY = {
     "C07": [("C07.15", "an operator over any operand evaluates the projection of every structural family and unites them", family_dispatch_rule)],
     "C01": [("C01.27", "no answer is taken from ONE member of an intersection (loops / find over the members of AllOf)", conjunct_selection_rule)],
-    "C08": [("C08.16", "no runtime class reads a property of the input through an own-only (hasOwnProperty-guarded) getter", own_only_read_rule)],
+    "C08": [("C08.17", "the scope of a declaration's type parameters covers every part of the declaration that is converted", declaration_scope_rule),
+            ("C08.16", "no runtime class reads a property of the input through an own-only (hasOwnProperty-guarded) getter", own_only_read_rule)],
     "C03": [("C03.21", "a class with child validators hands back the input itself only where a test established it is not an object", composite_parse_rule)],
     "C13": [("C13.13", "a number literal is encoded with the shortest round-trip rendering only (injective on doubles)", number_encoding_rule)],
     "C16": [("C16.10", "definition names reach the $ref text, the bookkeeping and the export verbatim", verbatim_name_rule)],
